@@ -531,6 +531,8 @@ def run(ctx: RuleContext, p: Program) -> None:
     ctx.try_rule(rule_detach_gate, p, 'DETACH-GATE')
     from . import round4 as _r4
     ctx.try_rule(_r4.rule_iter_once, p, 'ITER-ONCE')
+    from . import nodesem as _ns
+    ctx.try_rule(_ns.rule_node_sem, p, 'NODE-SEM', 3 if ctx.tier == 'quick' else 4)
     ctx.not_decided += ['nesting / non-overlap of child spans (runtime)', 'single ownership of every significant token (runtime)',
                         'that every tree leaf is currently in the store (runtime)']
     ctx.assumptions += ['reattach(store) re-binds a whole subtree (COVER-REATTACH)', 'tokens need no reattach (their store is their handle)']
